@@ -3,7 +3,9 @@
 model:    specs/Gfx.tla (receiver, producer, strip / resolution rules, iTerm2 clauses)
           MC_Gfx       producer (x) receiver for EVERY payload length 0..3*CS+8
                        (CS = 16 and the real constant 4096)
-          MC_GfxRender render loops transcribed (x) chunker (x) the trace judges
+          MC_GfxRender render loops transcribed (x) chunker (x) encoder (x) the trace judges
+          MC_GfxB64    base64 encoder (x) stream clauses for every payload SIZE CLASS
+                       (0..48, k*2^16+d, k*2^20+d, 3*2^k+-1, 2^21+1, 2^22+1, 2^23+1)
 binding:  spec -> code: every chunk sequence TLC generated is replayed into the REAL
                        Transmission.get_chunks (stub payload of that length) and compared;
           code -> spec: command sequences of REAL renders, with dumb projections
@@ -17,7 +19,10 @@ import json
 import os
 import random
 import shutil
+import struct
 import time
+import warnings
+import zlib
 from concurrent.futures import ThreadPoolExecutor
 from pathlib import Path
 
@@ -60,6 +65,11 @@ ASSUMPTIONS = [
     "B's command streams are each judged by the same clauses against their own references",
     "jpeg_quality: every value below 0 disables JPEG encoding (documented: 'value < 0; JPEG encoding is "
     "disabled'); values are set on the instance or class-wide (unset again after each case)",
+    "payload size classes: a payload is ONE base64 string whatever its size ('=' only as the last one or two "
+    "characters of the whole payload; a strict decoder obtains exactly size= / s*v*bpp bytes); sizes around "
+    "64 KiB, 1 MiB and their multiples, 3*2^k and several MiB are realised with source files of exactly n bytes "
+    "(a PNG with a private ancillary chunk vrFy, a GIF with an application extension block) sent as they are "
+    "by iTerm2 WHOLE (read-from-file) / native ANIM renders, and with incompressible pictures of > 1 MiB",
     "payload length 0 cannot occur in a real render (sizes are >= 1 px): it is covered by the "
     "spec -> code replay of get_chunks only",
 ]
@@ -117,6 +127,42 @@ def _save(img: Image.Image, path: Path, seed: int) -> None:
         img.save(path, quality=90, comment=f"verif c03-{seed}".encode())
 
 
+_IEND = b"\x00\x00\x00\x00IEND\xaeB`\x82"
+
+
+def pad_file(path: Path, n: int, seed: int) -> None:
+    """Grows a PNG / GIF file to EXACTLY ``n`` bytes without touching the picture: PNG - one private
+    ancillary chunk ``vrFy`` (safe to copy) before IEND; GIF - one application extension block
+    (identifier VERIFC03PAD) before the trailer.  The filling is seeded noise."""
+    data = path.read_bytes()
+    add = n - len(data)
+    rnd = random.Random(seed * 31 + n)
+    if path.suffix == ".png":
+        if not data.endswith(_IEND) or add < 12:
+            raise tlc.MachineryError(f"cannot grow {path.name} ({len(data)} bytes) to {n} bytes")
+        body = b"vrFy" + rnd.randbytes(add - 12)
+        chunk = struct.pack(">I", len(body) - 4) + body + struct.pack(">I", zlib.crc32(body))
+        out = data[:-12] + chunk + _IEND
+    elif path.suffix == ".gif":
+        q = add - 15  # bytes of data sub-blocks (length byte + data each)
+        if not data.endswith(b";") or q < 2:
+            raise tlc.MachineryError(f"cannot grow {path.name} ({len(data)} bytes) to {n} bytes")
+        parts = [b"\x21\xff\x0bVERIFC03PAD"]
+        while q:
+            take = min(q, 256)
+            if q - take == 1:
+                take -= 1  # a sub-block is at least 2 bytes
+            parts.append(bytes([take - 1]) + rnd.randbytes(take - 1))
+            q -= take
+        parts.append(b"\x00")
+        out = data[:-1] + b"".join(parts) + b";"
+    else:
+        raise tlc.MachineryError(f"no padding scheme for {path.name}")
+    if len(out) != n:
+        raise tlc.MachineryError(f"padding of {path.name} gave {len(out)} bytes, wanted {n}")
+    path.write_bytes(out)
+
+
 def build_source(case):
     """-> (constructor argument, 'pil' | 'path', Reference, animated)"""
     assert _dir is not None
@@ -124,15 +170,18 @@ def build_source(case):
     w, h = case["src"]
     kind = case["srckind"]
     alphakind = alpha_kind(case["alpha"])
+    fs = f"-n{case['filesize']}" if case.get("filesize") else ""  # source file of exactly n bytes
     bg = case["alpha"] if alphakind == "bghex" else None
     if alphakind == "bgterm":
         tb = case["fg_bg"][1]
         bg = (*tb, 255) if tb else (0, 0, 0, 255)  # the exact RGB triple, no string form involved
     if kind.startswith("anim"):
         _, n, frame, how = kind.split(":")
-        path = _dir / f"anim-{case['seed']}-{n}-{w}x{h}.gif"
+        path = _dir / f"anim-{case['seed']}-{n}-{w}x{h}{fs}.gif"
         if not path.exists():
             imgs.make_animation(rng, path, int(n), w, h)
+            if case.get("filesize"):
+                pad_file(path, case["filesize"], case["seed"])
         ref = proj.Reference(path=str(path), frame=int(frame), alphakind=alphakind, bg=bg)
         if how == "file":
             return str(path), "path", ref, True
@@ -148,9 +197,11 @@ def build_source(case):
     if kind == "pil":
         return img, "pil", proj.Reference(pil=img.copy(), alphakind=alphakind, bg=bg), False
     ext = "jpg" if case["mode"] == "CMYK" else "png"
-    path = _dir / f"src-{case['seed']}-{case['mode']}-{w}x{h}.{ext}"
+    path = _dir / f"src-{case['seed']}-{case['mode']}-{w}x{h}{fs}.{ext}"
     if not path.exists():
         _save(img, path, case["seed"])
+        if case.get("filesize"):
+            pad_file(path, case["filesize"], case["seed"])
     ref = proj.Reference(path=str(path), alphakind=alphakind, bg=bg)
     if kind == "file":
         return str(path), "path", ref, False
@@ -314,13 +365,14 @@ def render_on(image, case, ref, animated, via=None, text=None):
         cw2=cell2[0],
         ch2=cell2[1],
         cell_reads=env.reads,
+        filesize=case.get("filesize", 0),
     )
     return out, hdr
 
 
 _KEEP = (
     "proto a f t s v z zset zok o C c r m d keys nkeys b64len b64ok size par inline wcells hcells "
-    "dlen ilen imgw imgh kind rows_lo rows_hi pix tb64 pad isfile imgmode"
+    "dlen ilen imgw imgh kind rows_lo rows_hi pix tb64 pad pad1 isfile imgmode"
 ).split()
 
 
@@ -815,7 +867,76 @@ def jpeg_cases(rng, tier):
                         yield c
 
 
-def gen_cases(rng, tier):
+# payload sizes (bytes) of Gfx.tla SizeGrid that are realised as source files of exactly n bytes
+GRID16 = [k * 2**16 + d for k in (1, 2, 3) for d in (-2, -1, 0, 1, 2)]
+GRID20 = [k * 2**20 + d for k in (1, 2, 3) for d in (-2, -1, 0, 1, 2)]
+GRID3 = [3 * q + d for q in (2**14, 2**18) for d in (-1, 0, 1)]
+GRIDBIG = [2**21 + 1, 2**22 + 1, 2**23 + 1]
+QUICK_WHOLE = [2**16 - 1, 2**16, 2**16 + 1, 2**16 + 2, 2 * 2**16 + 1, 3 * 2**16 - 1, 3 * 2**14 + 1, 3 * 2**18 + 1,
+               2**20 - 1, 2**20, 2**20 + 1, 2**20 + 2, 2**21 + 1]
+QUICK_ANIM = [2**16 + 1, 2**20 + 1, 2**20 + 2]
+BIG_CELL = [16, 33]
+
+
+def size_cases(rng, tier):
+    """Payload SIZE CLASSES: the payload is ONE base64 string whatever its size.
+    (1) source files of exactly n bytes, n over Gfx.tla SizeGrid (>= 48 KiB), sent as they are:
+        iTerm2 WHOLE through the read-from-file gate (file path / PIL image with a file name) and
+        native ANIM (file path / PIL image); (2) re-encoded / raw payloads of incompressible
+        pictures: > 1 MiB for WHOLE (iTerm2 PNG / JPEG, kitty raw and zlib), > 64 KiB per strip
+        for LINES."""
+    thorough = tier == "thorough"
+    grid = sorted(set(GRID16 + GRID20 + GRID3 + GRIDBIG))
+    for n in (grid if thorough else QUICK_WHOLE):
+        for srckind in (("file", "pilfile") if thorough else (rng.choice(["file", "pilfile"]),)):
+            c = base_case(rng, "iterm2", method="whole", cell=[9, 18], size=[3, 2], src=[8, 8], mode="RGB",
+                          pixstyle="noise", srckind=srckind, rff=rng.choice([None, True]),
+                          alpha=rng.choice(ALPHAS), jpeg=rng.choice([None, -1, 50]))
+            c["filesize"] = n
+            c["via"] = rng.choice(["format", "renderer"])
+            yield c
+    for n in (grid if thorough else QUICK_ANIM):
+        for how in (("file", "pil") if thorough else (rng.choice(["file", "pil"]),)):
+            c = base_case(rng, "iterm2", method="anim", cell=[9, 18], size=[3, 2], src=[8, 8], mode="P",
+                          srckind=f"anim:2:0:{how}", rff=rng.choice([None, True, False]),
+                          alpha=rng.choice(ALPHAS))
+            c["filesize"] = n
+            c["via"] = rng.choice(["format", "renderer"])
+            yield c
+    # incompressible pictures: 640 x 594 px = 1 140 480 (RGB) / 1 520 640 (RGBA) raw bytes > 2^20
+    w, h = 40 * BIG_CELL[0], 18 * BIG_CELL[1]
+    whole = [("iterm2", "whole", "RGB", None, "pil", rng.randrange(1, 10), None),
+             ("kitty", "whole", "RGB", None, "pil", 0, None),
+             ("kitty", "whole", "RGBA", 0.4, "pil", rng.randrange(1, 10), None)]
+    if thorough:
+        whole += [("iterm2", "whole", "RGBA", 0.4, "pil", 0, None),
+                  ("iterm2", "whole", "RGB", "#102030", "file", rng.randrange(0, 10), None),
+                  ("iterm2", "anim", "RGB", None, "pilgone", rng.randrange(0, 10), None),
+                  ("iterm2", "whole", "L", None, "pil", 0, 95),
+                  ("kitty", "whole", "RGBA", 0.4, "file", 0, None),
+                  ("kitty", "whole", "RGB", "#", "pilfile", rng.randrange(1, 10), None)]
+    for style, method, mode, alpha, srckind, compress, jpeg in whole:
+        big = jpeg is not None  # a JPEG of noise is smaller than the raw picture: 1280 x 990 px
+        c = base_case(rng, style, method=method, cell=BIG_CELL, size=[80, 30] if big else [40, 18],
+                      src=[2 * w, 990] if big else [w, h], mode="RGB" if big else mode, alpha=alpha,
+                      pixstyle="noise", srckind=srckind, args={"compress": compress}, jpeg=jpeg,
+                      rff=False if srckind != "pil" else rng.choice([None, True, False]))
+        c["via"] = "renderer"
+        yield c
+    # LINES: every strip 1280 x 33 px = 126 720 (RGB) / 168 960 (RGBA) raw bytes > 2^16
+    lines = [("iterm2", "RGBA", 0.4, 0), ("kitty", "RGBA", 0.4, 0)]
+    if thorough:
+        lines += [("iterm2", "RGB", None, rng.randrange(1, 10)), ("kitty", "RGB", None, rng.randrange(1, 10)),
+                  ("iterm2", "RGB", None, 0), ("kitty", "RGBA", 0.4, rng.randrange(1, 10))]
+    for style, mode, alpha, compress in lines:
+        c = base_case(rng, style, method="lines", cell=BIG_CELL, size=[80, 2], src=[80 * BIG_CELL[0], 2 * BIG_CELL[1]],
+                      mode=mode, alpha=alpha, pixstyle="noise", srckind="pil", args={"compress": compress})
+        c["via"] = "renderer"
+        yield c
+
+
+def gen_cases(rng, tier, rng_sizes):
+    yield from size_cases(rng_sizes, tier)  # own generator: the draws of the other groups stay as they were
     yield from jpeg_cases(rng, tier)
     yield from termbg_cases(rng, tier)
     yield from interleaved_cases(rng, tier)
@@ -896,6 +1017,51 @@ def replay_chunks(rep: Report, res, cs: int, use_default: bool) -> int:
     return n
 
 
+def replay_streams(rep: Report, res, file_streams, only=None) -> dict:
+    """spec -> code for the encoder: every size n of the model (MC_GfxB64 prints the stream it
+    accepts: len, pad, pad1) is realised as a REAL payload and must come out as that stream:
+    (1) kitty ``Transmission.encode`` on n payload bytes (compress 0), (2) the payloads of the
+    iTerm2 WHOLE / native ANIM renders whose source file has exactly n bytes."""
+    from term_image.image.kitty import ControlData, Transmission
+
+    model = {r["n"]: r for r in res.tagged("STREAM")}
+    if len(model) < 80 or 2**20 + 1 not in model or 2**16 + 1 not in model:
+        raise tlc.MachineryError(f"MC_GfxB64 printed {len(model)} streams")
+    done = {"kitty-encode": 0, "iterm2-file": 0}
+
+    def compare(sig, what, n, got, scenario):
+        m = model.get(n)
+        if m is None:
+            raise tlc.MachineryError(f"payload size {n} is not in the model's SizeGrid")
+        rep.evaluations += 1
+        want = (m["len"], m["pad"], m["pad1"])
+        if want == got and n == 2**16 + 1:
+            if (m["len"], m["pad"], m["pad1"] - 4) == got:  # tampered edge must compare unequal
+                raise tlc.MachineryError("stream comparison accepts a tampered model edge")
+        if want != got:
+            rep.violation(
+                f"{sig}:base64-stream:{m['cls']}",
+                f"{what} of {n} bytes is the stream (characters, trailing '=', offset of the first '=') = {got}, "
+                f"the specification (Gfx.tla encoder, accepted by B64StreamClause) {want}",
+                scenario,
+            )
+
+    for n in sorted(model):
+        if only is not None and n not in only:
+            continue
+        t = Transmission(ControlData(f=24, s=1, v=1, c=1, r=1), bytes(n), 0)
+        enc = t.encode()
+        text = enc.decode("ascii") if isinstance(enc, (bytes, bytearray)) else str(enc)
+        compare("kitty:encode", "Transmission(..., level 0).encode() on a payload", n,
+                (len(text), len(text) - len(text.rstrip("=")), text.find("=")), {"kind": "encode", "n": n})
+        done["kitty-encode"] += 1
+    for n, ln, pad, pad1, h, case in file_streams:
+        compare(f"iterm2:{h['method']}", f"the payload of an iTerm2 {h['method']} render of a source file", n,
+                (ln, pad, pad1), {"case": case})
+        done["iterm2-file"] += 1
+    return done
+
+
 def check_mc(res, name: str, rep: Report, actions) -> None:
     if res.violated:
         rep.violation(
@@ -963,6 +1129,8 @@ def corruptions(traces):
         t["ev"][j]["dlen"] -= 3
         t["ev"][j]["tb64"] -= 4
         t["ev"][j]["b64len"] -= 4
+        if t["ev"][j]["pad1"] >= 0:
+            t["ev"][j]["pad1"] -= 4
         out.append((t, "payload-size"))
     t = first(lambda t: t["hdr"]["style"] == "kitty" and t["hdr"]["method"] == "lines" and t["hdr"]["rh"] > 1 and t["hdr"]["blend"])
     if t:
@@ -988,6 +1156,12 @@ def corruptions(traces):
     if t:
         t["ev"][0]["size"] += 1
         out.append((t, "size-key"))
+    for style in ("iterm2", "kitty"):
+        # a '=' in the middle of the payload (two separately padded pieces), lengths untouched
+        t = first(lambda t: t["hdr"]["style"] == style and t["ev"] and t["ev"][-1]["tb64"] >= 16)
+        if t:
+            t["ev"][-1]["pad1"] = t["ev"][-1]["tb64"] // 8 * 4 - 1
+            out.append((t, "base64-padding"))
     t = first(lambda t: t["hdr"]["style"] == "iterm2" and t["hdr"]["method"] == "whole" and t["ev"]
               and t["ev"][0]["isfile"] == 1)
     if t:
@@ -1022,6 +1196,7 @@ def classify_boundaries(traces) -> dict:
 
 def main(rep: Report, replay: dict | None) -> None:
     global _dir
+    warnings.filterwarnings("ignore", message="Image data size above the maximum for native animation")
     rep.assumptions += ASSUMPTIONS
     rep.rule = (
         "MC: every payload length 0..3*CS+8 (CS=16 and CS=4096) through producer (x) receiver; render "
@@ -1052,6 +1227,12 @@ def main(rep: Report, replay: dict | None) -> None:
                                   f"real {real[:6]} != model {model[:6]}", sc)
         return
 
+    if replay and replay.get("scenario", {}).get("kind") == "encode":
+        res = tlc.run("MC_GfxB64", "MC_GfxB64.cfg", workers=2, timeout=600, deadlock=False)
+        rep.add_tlc(res)
+        replay_streams(rep, res, [], only={replay["scenario"]["n"]})
+        return
+
     pool = ThreadPoolExecutor(max_workers=8)
     futs = {}
     if not replay:
@@ -1063,12 +1244,21 @@ def main(rep: Report, replay: dict | None) -> None:
                                          deadlock=False, seed=rep.seed)
         futs["MC_GfxRender"] = pool.submit(tlc.run, "MC_GfxRender", "MC_GfxRender.cfg", workers=6,
                                            timeout=900, coverage=True, deadlock=False, seed=rep.seed)
+        # encoder (x) stream clauses over the payload size classes: the code (one piece) and a
+        # correct alternative (blocks of 3*2^18 bytes) must both be accepted
+        futs["MC_GfxB64"] = pool.submit(tlc.run, "MC_GfxB64", "MC_GfxB64.cfg", workers=2, timeout=600,
+                                        coverage=True, deadlock=False, seed=rep.seed)
+        futs["MC_GfxB64_alt"] = pool.submit(tlc.run, "MC_GfxB64", "MC_GfxB64_alt.cfg", workers=2, timeout=600,
+                                            coverage=True, deadlock=False, seed=rep.seed)
         # the invariants must bite: regressions written into the model have to be rejected
-        muts = [("MC_Gfx", "MC_Gfx_mut1.cfg"), ("MC_Gfx", "MC_Gfx_mut2.cfg")]
+        muts = [("MC_Gfx", "MC_Gfx_mut1.cfg"), ("MC_Gfx", "MC_Gfx_mut2.cfg"),
+                ("MC_GfxB64", "MC_GfxB64_mut_block-1MiB.cfg")]
+        if thorough:
+            muts.append(("MC_GfxB64", "MC_GfxB64_mut_block-64KiB.cfg"))
         muts += [("MC_GfxRender", f"MC_GfxRender_mut_{v}.cfg") for v in
                  (("cell-height-plus-1", "bpp-plus-1", "gate-ignores-palette", "whole-at-render-size",
-                   "second-cell-read")
-                  if thorough else ("cell-height-plus-1", "second-cell-read"))]
+                   "second-cell-read", "encode-in-blocks")
+                  if thorough else ("cell-height-plus-1", "second-cell-read", "encode-in-blocks"))]
         for spec, cfg in muts:
             futs["mut:" + cfg] = pool.submit(tlc.run, spec, cfg, workers=2, timeout=600,
                                              deadlock=False, check=False)
@@ -1077,7 +1267,7 @@ def main(rep: Report, replay: dict | None) -> None:
     if replay:
         cases = [replay["scenario"]["case"]]
     else:
-        cases = list(gen_cases(rng, rep.tier))
+        cases = list(gen_cases(rng, rep.tier, random.Random(rep.seed * 7919 + 11)))
 
     phase = {"render+project": 0.0, "trace-validation": 0.0}
     bc: dict[str, int] = {}
@@ -1087,6 +1277,8 @@ def main(rep: Report, replay: dict | None) -> None:
     interleaved: dict[str, int] = {}
     termbg: dict[str, int] = {}
     jpegs: dict[str, int] = {}
+    sizeclasses: dict[str, int] = {}
+    file_streams: list = []  # payloads of source files of exactly n bytes: (n, len, pad, pad1, hdr, case)
     rejected = 0
     block = 4000
     for b0 in range(0, len(cases), block):
@@ -1139,7 +1331,7 @@ def main(rep: Report, replay: dict | None) -> None:
                 canaries = corruptions(good)
             except (StopIteration, IndexError):
                 canaries = []
-            if len(canaries) >= 11:
+            if len(canaries) >= 13:
                 cv, st, trn = tlc.validate_traces(
                     "Trace_Gfx", "Trace_Gfx.cfg", [c[0] for c in canaries], batch=500, parallel=1,
                     workers=2, name="c03c", timeout=300,
@@ -1158,6 +1350,15 @@ def main(rep: Report, replay: dict | None) -> None:
                 raise tlc.MachineryError(f"only {len(canaries)} corrupted-trace canaries could be built")
         for key, n in classify_boundaries(traces).items():
             bc[key] = bc.get(key, 0) + n
+        for v, tr, case in zip(verdicts, traces, owners):
+            # payload size class of the render as Trace_Gfx (Gfx.tla PayloadClass) reports it
+            h = tr["hdr"]
+            kinds = sorted({("file" if e["isfile"] else e["kind"]) for e in tr["ev"] if e["tb64"] > 0})
+            key = f"{h['style']}:{h['method']}:{'+'.join(kinds) or 'raw'}:{v['pclass']}"
+            sizeclasses[key] = sizeclasses.get(key, 0) + 1
+            if h["filesize"] and tr["ev"]:
+                e = tr["ev"][0]
+                file_streams.append((h["filesize"], e["tb64"], e["pad"], e["pad1"], h, case))
         for tr in traces:
             if tr["hdr"]["style"] == "iterm2" and tr["ev"] and not tr["ev"][0]["isfile"]:
                 key = f"jpeg={tr['hdr']['jpeg']}:{tr['hdr']['jpeg_level']}:{tr['ev'][0]['kind']}"
@@ -1197,6 +1398,16 @@ def main(rep: Report, replay: dict | None) -> None:
             for level in ("instance", "class"):
                 if not jpegs.get(f"jpeg={v}:{level}:png"):
                     raise tlc.MachineryError(f"jpeg_quality {v} ({level}) never re-encoded a render: {jpegs}")
+    rep.extra["payload_size_classes"] = sizeclasses
+    if not replay and not rep.violations:
+        need = ["iterm2:whole:file:>1MiB", "iterm2:anim:file:>1MiB", "iterm2:whole:png:>1MiB",
+                "kitty:whole:raw:>1MiB", "iterm2:whole:file:64KiB..1MiB", "iterm2:anim:file:64KiB..1MiB",
+                "iterm2:lines:png:64KiB..1MiB", "kitty:lines:raw:64KiB..1MiB"]
+        if thorough:
+            need += ["iterm2:whole:jpeg:>1MiB", "iterm2:anim:png:>1MiB"]
+        for key in need:
+            if not sizeclasses.get(key):
+                raise tlc.MachineryError(f"no render with a payload of size class {key}: {sizeclasses}")
     rep.extra["alpha_hash_renders_by_terminal_background"] = termbg
     if not replay and not rep.violations and any(
         not termbg.get(str(bg)) for bg in TERM_BGS
@@ -1236,6 +1447,11 @@ def main(rep: Report, replay: dict | None) -> None:
             check_mc(res, name, rep, acts)
             rep.add_tlc(res)
             rep.extra[name] = {"states": res.distinct, "generated": res.generated, "coverage": res.coverage}
+        for name in ("MC_GfxB64", "MC_GfxB64_alt"):
+            res = futs[name].result()
+            check_mc(res, name, rep, ("EncodeWhole",) if name == "MC_GfxB64" else ("EncodeBlock", "EndOfStream"))
+            rep.add_tlc(res)
+            rep.extra[name] = {"states": res.distinct, "generated": res.generated, "coverage": res.coverage}
         phase["wait-for-models"] = round(time.time() - t0, 1)
         phase["model-wall"] = {k: round(f.result().wall_s, 1) for k, f in futs.items()}
         t0 = time.time()
@@ -1244,6 +1460,9 @@ def main(rep: Report, replay: dict | None) -> None:
         phase["chunk-replay"] = round(time.time() - t0, 1)
         rep.traces_validated += n
         rep.extra["chunk_sequences_replayed_into_get_chunks"] = n
+        t0 = time.time()
+        rep.extra["payload_streams_replayed"] = replay_streams(rep, futs["MC_GfxB64"].result(), file_streams)
+        phase["stream-replay"] = round(time.time() - t0, 1)
         killed = []
         for key, f in futs.items():
             if key.startswith("mut:"):
